@@ -213,6 +213,10 @@ structure RObj where
   bonds : Option (List Nat) := none
   cellvecs : Option (List Nat) := none
   cube : Option (List Nat) := none    -- shape of `cube.data`
+  hasTitle : Bool := false            -- the key `title` is in the dictionary (a `str`)
+  hasAtcharges : Bool := false        -- the key `atcharges` is in the dictionary (a `dict`)
+  hasAtffparams : Bool := false       -- the key `atffparams` is in the dictionary
+  hasExtra : Bool := false            -- the key `extra` is in the dictionary
   deriving DecidableEq, Repr, Inhabited
 
 /-- `len(array)` -/
@@ -263,6 +267,48 @@ def RObj.Consistent (o : RObj) (n : Nat) : Prop :=
 def RObj.FullyConsistent (o : RObj) (n : Nat) : Prop :=
   o.Consistent n ∧ (∀ k ∈ o.atffparams, k = n) ∧ (∀ k ∈ o.extraAtom, k = n)
 
+/-! ### which keys / attributes are set (C17: "guaranteed ⇒ set") -/
+
+def kAtcoords : Str := ['a','t','c','o','o','r','d','s']
+def kAtnums : Str := ['a','t','n','u','m','s']
+def kAtcorenums : Str := ['a','t','c','o','r','e','n','u','m','s']
+def kAtcharges : Str := ['a','t','c','h','a','r','g','e','s']
+def kAtffparams : Str := ['a','t','f','f','p','a','r','a','m','s']
+def kBonds : Str := ['b','o','n','d','s']
+def kCellvecs : Str := ['c','e','l','l','v','e','c','s']
+def kCube : Str := ['c','u','b','e']
+def kExtra : Str := ['e','x','t','r','a']
+def kTitle : Str := ['t','i','t','l','e']
+
+/-- the attribute names a result dictionary of the modelled readers can carry, each with the test
+"the key is in the dictionary (with a value that is not `None`)" -/
+def accessors : List (Str × (RObj → Bool)) :=
+  [(kAtcoords, fun o => o.atcoords.isSome), (kAtnums, fun o => o.atnums.isSome),
+   (kAtcorenums, fun o => o.atcorenums.isSome), (kAtcharges, fun o => o.hasAtcharges),
+   (kAtffparams, fun o => o.hasAtffparams), (kBonds, fun o => o.bonds.isSome),
+   (kCellvecs, fun o => o.cellvecs.isSome), (kCube, fun o => o.cube.isSome),
+   (kExtra, fun o => o.hasExtra), (kTitle, fun o => o.hasTitle)]
+
+/-- the test for attribute name `a`; `none` = the shapes object does not represent this attribute at all -/
+def accessor? (a : Str) : Option (RObj → Bool) := accessors.lookup a
+
+/-- keys of the result dictionary (in the order of `accessors`) -/
+def RObj.keys (o : RObj) : List Str := (accessors.filter fun p => p.2 o).map (·.1)
+
+/-- attributes of `IOData` whose default is a fresh `dict` (`attrs.field(factory=dict)`), among `accessors` -/
+def dictDefaults : List Str := [kAtcharges, kAtffparams, kExtra]
+
+/-- `getattr(IOData(**result), a) is not None` once the constructor has accepted `result`: the key was passed
+(no converter or validator turns a value into `None`), or the attribute defaults to a fresh `dict`, or it is
+`atcorenums`, which the property getter derives from `atnums` -/
+def RObj.attrSet (o : RObj) (a : Str) (key : RObj → Bool) : Bool :=
+  key o || dictDefaults.contains a || (a == kAtcorenums && o.atnums.isSome)
+
+/-- attributes (of `accessors`) that are not `None` on the constructed object -/
+def RObj.setAttrs (o : RObj) : List Str := (accessors.filter fun p => o.attrSet p.1 p.2).map (·.1)
+
+def showNames (l : List Str) : String := if l.isEmpty then "-" else ",".intercalate (l.map String.ofList)
+
 def showShape (s : Option (List Nat)) : String :=
   match s with
   | none => "-"
@@ -274,12 +320,15 @@ def showLens (l : List Nat) : String := if l.isEmpty then "-" else ",".intercala
 def RObj.show (o : RObj) : String :=
   s!"atcoords={showShape o.atcoords} atnums={showShape o.atnums} atcorenums={showShape o.atcorenums} " ++
   s!"atcharges={showLens o.atcharges} atffparams={showLens o.atffparams} extra={showLens o.extraAtom} " ++
-  s!"bonds={showShape o.bonds} cellvecs={showShape o.cellvecs} cube={showShape o.cube}"
+  s!"bonds={showShape o.bonds} cellvecs={showShape o.cellvecs} cube={showShape o.cube} keys={showNames o.keys}"
 
 /-- response of the `rdr` stream -/
 def Out.show (r : Out RObj) : String :=
   match r.res with
-  | .ok o => s!"ok {o.show} ctor={match ctorE o with | none => "ok" | some c => c.toString} @{r.lineno}"
+  | .ok o =>
+    match ctorE o with
+    | none => s!"ok {o.show} ctor=ok set={showNames o.setAttrs} @{r.lineno}"
+    | some c => s!"ok {o.show} ctor={c.toString} set=- @{r.lineno}"
   | .error c => s!"err {c.toString} @{r.lineno}"
 
 end Iodata.Rd
